@@ -127,20 +127,18 @@ pub fn run_case(ctx: &mut Ctx, which: Which, idx: u64) {
     let trie = trie_for(&case, &spec);
     let sr = if which == Which::C01 { structure(ctx, &p, Some(&trie)) } else { structure_head_only(ctx, &p, Some(&trie)) };
     structure_stats(&mut ctx.rep, &sr);
-    if !sr.table.is_empty() || !sr.shape.is_empty() {
-        let mut msgs = sr.shape.clone();
-        msgs.extend(sr.table.iter().cloned());
+    if !sr.table.is_empty() {
         ctx.rep.violation(
             "dfa-table",
             format!(
-                "the automaton's own transition function / output lists differ from the textbook Aho-Corasick automaton: {}",
-                msgs[0]
+                "the automaton's own transition function / output lists are not equivalent to the textbook Aho-Corasick automaton: {}",
+                sr.table[0]
             ),
             idx,
-            struct_detail(&case, &spec, &msgs),
+            struct_detail(&case, &spec, &sr.table),
         );
     }
-    if !sr.table_done && sr.table.is_empty() && sr.shape.is_empty() {
+    if !sr.table_done {
         ctx.rep.count("table_monitor_skipped_closure_or_ranking_failed", 1);
     }
 
